@@ -328,6 +328,28 @@ func (e *enc) mergeInto(b *ssa.BasicBlock, r string) {
 			if lo != "" && len(preds) == 1 {
 				e.assume(fmt.Sprintf("(>= %s %s)", nv, lo))
 			}
+			// a field only stored, inside the loop, into objects this activation allocated itself:
+			// every other object that existed before the loop keeps its value
+			if (mod[a] || e.w.frozenArr(a)) && (!all || e.w.frozenArr(a)) && strings.HasPrefix(a, "H_") && strings.HasPrefix(e.heapSort[a], "(Array Ref ") {
+				if own, ok := e.loopStoresOnlyToOwnAllocs(b, a); ok {
+					var entry *ssa.BasicBlock
+					n := 0
+					for _, p := range preds {
+						if !e.back[[2]*ssa.BasicBlock{p, b}] {
+							entry = p
+							n++
+						}
+					}
+					if n == 1 && e.heapAt[entry] != nil {
+						conds := []string{fmt.Sprintf("(< (birth r) %s)", e.now(e.heapAt[entry]))}
+						for _, o := range own {
+							conds = append(conds, fmt.Sprintf("(not (= r %s))", o))
+						}
+						e.assume(fmt.Sprintf("(forall ((r Ref)) (! (=> (and %s) (= (select %s r) (select %s r))) :pattern ((select %s r))))",
+							strings.Join(conds, " "), nv, e.hnameIn(a, e.heapAt[entry]), nv))
+					}
+				}
+			}
 			continue
 		}
 		vers := map[int]bool{}
@@ -1047,3 +1069,46 @@ func (e *enc) callKeyOf(cc *ssa.CallCommon) string {
 }
 
 var dbgOn = len(dbgEnv) > 0
+
+// loopStoresOnlyToOwnAllocs: every instruction of the loop writing field array a is a store to a
+// field of an object allocated by this activation (an Alloc of this function). Returns the terms of
+// those allocations that were made before the loop.
+func (e *enc) loopStoresOnlyToOwnAllocs(h *ssa.BasicBlock, a string) ([]string, bool) {
+	var own []string
+	for b := range e.loopBody[h] {
+		for _, ins := range b.Instrs {
+			writes := false
+			for _, w := range e.info.writes[ins] {
+				if w == a {
+					writes = true
+				}
+			}
+			if !writes {
+				continue
+			}
+			if _, isCall := ins.(ssa.CallInstruction); isCall && e.w.frozenArr(a) {
+				continue // a call changes a frozen field only on objects born during the call
+			}
+			st, ok := ins.(*ssa.Store)
+			if !ok {
+				return nil, false
+			}
+			fa, ok := st.Addr.(*ssa.FieldAddr)
+			if !ok {
+				return nil, false
+			}
+			al, ok := fa.X.(*ssa.Alloc)
+			if !ok {
+				return nil, false
+			}
+			if !e.loopBody[h][al.Block()] {
+				if n, ok := e.names[al]; ok {
+					own = append(own, n)
+				} else {
+					return nil, false
+				}
+			}
+		}
+	}
+	return own, true
+}
